@@ -206,7 +206,10 @@ func TestC19(t *testing.T) {
 }
 
 // randU32 mixes uniform values with values of every byte length so leading-zero classes are hit
-func randU32(g interface{ Uint32() uint32; Intn(int) int }) uint32 {
+func randU32(g interface {
+	Uint32() uint32
+	Intn(int) int
+}) uint32 {
 	v := g.Uint32()
 	switch g.Intn(6) {
 	case 0:
